@@ -123,13 +123,14 @@ Lemma LiveItems_ready G s inn p l i fs res g :
   g = g0 /\
   (inn = true -> existsb (fun x => fails_inner x || is_vnull x) l = false) /\
   length res = i + length l /\
-  forall k x, nth_error l k = Some x ->
-    exists v, nth_error res (i + k) = Some v /\ val_ok G (s_maps s) v (jc x).
+  (forall k x, nth_error l k = Some x ->
+    exists v, nth_error res (i + k) = Some v /\ val_ok G (s_maps s) v (jc x)) /\
+  Forall (Fired s) (must_items must_I inn p l i).
 Proof.
   induction 1; intros R.
-  - split; auto. split; auto. split; [simpl; lia|]. intros [|k] x; discriminate.
-  - inversion R; subst. destruct (IHLiveItems H6) as (-> & F & Ln & V).
-    split; auto. split; [|split].
+  - split; auto. split; auto. split; [simpl; lia|]. split; [|constructor]. intros [|k] x; discriminate.
+  - inversion R; subst. destruct (IHLiveItems H7) as (-> & F & Ln & V & Mu).
+    split; auto. split; [|split; [|split]]; [| | |simpl; apply Forall_app; split; auto].
     + intros N. simpl. rewrite (F N). specialize (H N). unfold fails_w in H. simpl in H.
       now rewrite H.
     + simpl. lia.
@@ -153,10 +154,11 @@ Qed.
 Lemma items_done_val G s inn p items fs res :
   LiveItems G s inn p items 0 fs res g0 -> Forall is_ready fs ->
   fails_inner (VList inn items) = false /\
-  val_ok G (s_maps s) (GList res) (jv (VList inn items)).
+  val_ok G (s_maps s) (GList res) (jv (VList inn items)) /\
+  Forall (Fired s) (must_I (VList inn items) p).
 Proof.
-  intros L R. destruct (LiveItems_ready _ _ _ _ _ _ _ _ _ L R) as (_ & F & Ln & V).
-  split.
+  intros L R. destruct (LiveItems_ready _ _ _ _ _ _ _ _ _ L R) as (_ & F & Ln & V & Mu).
+  split; [|split; [|exact Mu]].
   - rewrite fails_inner_list. destruct inn; [|reflexivity]. simpl. now apply F.
   - rewrite jv_list. constructor. apply Forall2_nth_intro.
     + rewrite map_length. simpl in Ln. exact Ln.
@@ -188,7 +190,7 @@ Proof.
   - simpl in E. simpl in Ln.
     destruct f as [[v|e]|c].
     + (* ready, ok *)
-      simpl in O. destruct O as [[F V] ->].
+      simpl in O. destruct O as [(F & V & Mu) ->].
       destruct (IH (S i) fs0 g2 (Future.set_nth i v res) ok res' o Bt) as (L1 & P1 & M); auto.
       { rewrite set_nth_length. lia. }
       rewrite set_nth_length in L1. split; auto. split.
@@ -262,7 +264,7 @@ Proof.
     + split; auto. unfold spec_I. cbn [ResOK ps_fails ps_esc]. split; auto.
       rewrite N. exact Ex.
   - destruct M as (_ & -> & LI & R). exists G', g0. split; auto. split; auto.
-    destruct (items_done_val _ _ _ _ _ _ _ LI R). split; auto.
+    destruct (items_done_val _ _ _ _ _ _ _ LI R) as (X1 & X2 & X3). split; auto.
   - destruct M as (LI & D). exists G', g'. split; auto.
     destruct D as [D|[D1 D2]]; [discriminate|]. split; auto. constructor; auto.
 Qed.
@@ -320,7 +322,7 @@ Proof.
     destruct ok.
     + repeat split; auto.
     + split; auto.
-  - inversion L as [| inn0 p0 x0 tl0 i0 v fs0 res0 g2 Fx V Hi Lt | inn0 p0 x0 tl0 i0 c fs0 res0 g1 g2 LC Lt]; subst.
+  - inversion L as [| inn0 p0 x0 tl0 i0 v fs0 res0 g2 Fx V Mu Hi Lt | inn0 p0 x0 tl0 i0 c fs0 res0 g1 g2 LC Lt]; subst.
     + (* the item is ready *)
       rewrite join_loop_cons in E. simpl in E. rewrite (set_nth_same _ _ _ Hi) in E.
       destruct (join_loop (invoke FX) fs0 (S i) res ok s) as [[[tl1 res1] o1] s2] eqn:E1.
@@ -329,6 +331,8 @@ Proof.
       exists G', g'. split; auto. split; [intros k Hk; apply P; lia|].
       assert (V' : val_ok G' (s_maps s2) v (jc x)).
       { destruct St as (A1 & (A2 & _) & _). eapply val_ok_mono; eauto. }
+      assert (Mu' : Forall (Fired s2) (must_CI inn x (PIdx i :: p))).
+      { destruct St as (_ & A2 & _). eapply Forall_impl; [|exact Mu]. intros a. now apply Fired_mono. }
       assert (Hi' : nth_error res1 i = Some v) by (rewrite P by lia; exact Hi).
       destruct o1 as [e| |].
       * destruct M as (N & Ex & In). split; auto. split.
@@ -354,7 +358,7 @@ Proof.
       pose proof (LiveItems_length _ _ _ _ _ _ _ _ _ L) as Ln. simpl in Ln.
       destruct r as [[v|e]|]; simpl in O1, E.
       * (* completed with a value *)
-        destruct O1 as [[F V] ->].
+        destruct O1 as [(F & V & Mu) ->].
         destruct (join_loop (invoke FX) fs0 (S i) (Future.set_nth i v res) ok s1) as [[[tl1 res1] o1] s2] eqn:E1.
         injection E as <- <- <- <-.
         assert (Lt2 : LiveItems G1 s1 inn p tl (S i) fs0 (Future.set_nth i v res) g2).
@@ -367,6 +371,8 @@ Proof.
         { intros k Hk. rewrite P by lia. apply set_nth_neq. lia. }
         assert (V' : val_ok G' (s_maps s2) v (jc x)).
         { destruct St as (A1 & (A2 & _) & _). eapply val_ok_mono; eauto. }
+        assert (Mu' : Forall (Fired s2) (must_CI inn x (PIdx i :: p))).
+        { destruct St as (_ & A2 & _). eapply Forall_impl; [|exact Mu]. intros a. now apply Fired_mono. }
         assert (Hi' : nth_error res1 i = Some v).
         { rewrite P by lia. apply set_nth_eq. lia. }
         assert (Fx : inn = true -> fails_w true x = false).
@@ -440,7 +446,7 @@ Proof.
       eapply Acct_drop; eauto.
     + split; auto. split; auto. rewrite N. exact Ex1.
   - destruct M as (_ & -> & LI1 & R). exists G', g0. split; auto. split; auto.
-    destruct (items_done_val _ _ _ _ _ _ _ LI1 R). split; auto.
+    destruct (items_done_val _ _ _ _ _ _ _ LI1 R) as (X1 & X2 & X3). split; auto.
   - destruct M as (LI1 & D). exists G', g'. split; auto.
     destruct D as [D|[D1 D2]]; [discriminate|]. split; auto. constructor; auto.
 Qed.
